@@ -51,8 +51,9 @@ fn draw_cfg(ctx: &mut Ctx) -> Cfg {
     let t = &mut ctx.tape;
     // generator share: constellations G3/G4/G5 get at least 40 %
     let gen = match ctx.mode {
-        Prop::C12 => *t.pick(&[1u32, 2, 7, 7, 3, 4, 5, 0, 9, 10, 10, 10, 10, 10, 10]),
-        Prop::C13 | Prop::C11 => *t.pick(&[1u32, 1, 2, 2, 7, 7, 8, 3, 4, 5, 0, 9, 9, 9, 10]),
+        Prop::C12 => *t.pick(&[1u32, 2, 7, 7, 3, 4, 5, 0, 9, 10, 10, 10, 10, 10, 10, 6]),
+        Prop::C13 => *t.pick(&[1u32, 1, 2, 2, 7, 7, 8, 3, 4, 5, 0, 9, 9, 9, 10]),
+        Prop::C11 => *t.pick(&[1u32, 1, 2, 2, 7, 7, 8, 3, 4, 5, 0, 9, 9, 9, 10, 6]),
         Prop::C04 => *t.pick(&[0u32, 1, 8, 8, 2, 3, 4, 5, 7, 9]),
         _ => *t.pick(&[0u32, 1, 2, 3, 3, 3, 4, 4, 5, 5, 6, 7, 8, 9, 3, 4, 5, 2]),
     };
@@ -1076,8 +1077,11 @@ fn corrupt(ctx: &mut Ctx, s: &mut Session, other_text: &str) -> Step {
     let r = op(Op::Parse, || chess_movegen::fen::parse_fen(&bytes));
     let shown = String::from_utf8_lossy(&bytes).to_string();
     match r {
-        Err(_) => {
+        Err(e) => {
             ctx.stats.bump("c06.rejected");
+            // the error is a value the caller will print
+            let n = op(Op::Print, || format!("{e} {e:?}").len());
+            ctx.observe_u64(n as u64);
             Ok(())
         }
         Ok(b) => {
@@ -1285,6 +1289,138 @@ fn choose_move(ctx: &mut Ctx, s: &Session, cfg: &Cfg, l1: &[Mv]) -> Mv {
             l1[0]
         }
     }
+}
+
+/// F-SCHED on one thread: a second session on a sibling position - same placement, but the
+/// other side to move, fewer castling rights or no en-passant marker - is interleaved with
+/// this one (A, B, A).  Whatever the real code remembers between calls (a memo keyed by too
+/// little of the position) shows up as an answer that belongs to the other session.
+fn interleave_twin(ctx: &mut Ctx, s: &Session, l1: &[Mv]) -> Step {
+    if ctx.tape.choose(6) != 5 {
+        return Ok(());
+    }
+    let mut t = s.model.clone();
+    match ctx.tape.choose(4) {
+        0 => {
+            t.stm ^= 1;
+            t.ep = None;
+        }
+        1 => {
+            let held: Vec<usize> = (0..4).filter(|&i| t.cr[i]).collect();
+            if held.is_empty() {
+                return Ok(());
+            }
+            t.cr[*ctx.tape.pick(&held)] = false;
+        }
+        2 => {
+            if t.ep.is_none() {
+                return Ok(());
+            }
+            t.ep = None;
+        }
+        _ => {
+            t.stm ^= 1;
+            t.ep = None;
+            t.cr = [false; 4];
+        }
+    }
+    if t.validity().is_err() || !clocks_in_range(&t) {
+        ctx.stats.bump("twin.not-a-valid-position");
+        return Ok(());
+    }
+    // a rejection of the twin's record is C06's business (every canonical record of a valid
+    // position is accepted), not this probe's
+    let Ok(tb) = op(Op::Parse, || sut::to_board(&t)) else {
+        ctx.stats.bump("twin.record-rejected");
+        return Ok(());
+    };
+    let twin = Session { model: t, board: tb, played: false, prev_legal: Vec::new(), last_move: [None, None], from_standard: None, sut_driven: false, shadow: None, last_kind: None, last_gave_check: false };
+    ctx.stats.bump("fault.sched.interleaved-twin-session");
+    let lt = check_legals(ctx, &twin)?;
+    match ctx.mode {
+        Prop::C02 => {
+            mon_c02(ctx, &twin, &lt, 1)?;
+            mon_c02(ctx, s, l1, 1)?;
+        }
+        Prop::C07 => {
+            mon_c01(ctx, &twin, &lt, 1)?;
+            mon_c02(ctx, &twin, &lt, 1)?;
+            mon_c01(ctx, s, l1, 1)?;
+            mon_c02(ctx, s, l1, 1)?;
+        }
+        _ => {
+            mon_c01(ctx, &twin, &lt, 1)?;
+            mon_c01(ctx, s, l1, 1)?;
+        }
+    }
+    // and the generator once more on the first session
+    let again = op(Op::Generate, || sut::legals_sorted(&s.board));
+    if again != l1 && ctx.mode != Prop::C02 {
+        let fen = s.model.fen();
+        let m = diff_first(l1, &again).or(diff_first(&again, l1));
+        let feat = m.map(|m| move_features(&s.model, m)).unwrap_or_default();
+        return ctx.fail(Prop::C01, "legals.changed-after-sibling-session", feat, format!("the move list of {fen} changed after a session on a sibling position"));
+    }
+    Ok(())
+}
+
+/// C07 only: the remaining safe surface of an accepted position - every text form of the raw
+/// board and of the repetition table, and the piece sets walked with the iterator adaptors
+/// (`nth`, `skip`, `step_by`, `last`, `count`) including arguments past the end.  Nothing is
+/// compared (the set algebra itself is not a simulation target); a trap is the finding.
+fn surface_walk(ctx: &mut Ctx, s: &Session, tf: &chess_engine::ThreeFold) {
+    use chess_bitboard::{Color, Piece};
+    if ctx.tape.choose(4) != 3 {
+        return;
+    }
+    ctx.stats.bump("c07.surface-walks");
+    let raw = *s.board.raw();
+    let n = op(Op::Print, || format!("{raw:?}{raw:#?}{raw:b}{raw:x}{raw:X}").len());
+    ctx.observe_u64(n as u64);
+    if ctx.tape.choose(8) == 0 {
+        let n = op(Op::Print, || format!("{tf:?}").len());
+        ctx.stats.bump("c07.surface.repetition-table-printed");
+        // (iteration order of the table is not part of the observation)
+        let _ = n;
+    }
+    let set = match ctx.tape.choose(9) {
+        0 => s.board[Color::White],
+        1 => s.board[Color::Black],
+        2 => s.board[Piece::Pawn],
+        3 => s.board[Piece::Knight],
+        4 => s.board[Piece::Bishop],
+        5 => s.board[Piece::Rook],
+        6 => s.board[Piece::Queen],
+        7 => s.board[Piece::King],
+        _ => raw.all(),
+    };
+    let len = set.count() as usize;
+    let arg = match ctx.tape.choose(8) {
+        0 => 0usize,
+        1 => len.saturating_sub(1),
+        2 => len,
+        3 => len + 1,
+        4 => 63,
+        5 => 64,
+        6 => 65 + ctx.tape.choose(1000) as usize,
+        _ => usize::MAX,
+    };
+    if arg >= len {
+        ctx.stats.bump("fault.degenerate-argument.nth-past-the-end");
+    }
+    let which = ctx.tape.choose(5);
+    let r = op(Op::Iterate, || match which {
+        0 => set.iter().nth(arg).map(|p| p.to_u8() as u64).unwrap_or(99),
+        1 => set.iter().skip(arg).count() as u64,
+        2 => set.iter().step_by(arg.clamp(1, 1 << 20)).count() as u64,
+        3 => {
+            let mut it = set.iter();
+            let a = it.nth(arg.min(70)).map(|p| p.to_u8() as u64).unwrap_or(99);
+            a * 100 + it.count() as u64
+        }
+        _ => set.iter().last().map(|p| p.to_u8() as u64).unwrap_or(99) + set.iter().size_hint().0 as u64,
+    });
+    ctx.observe_u64(r);
 }
 
 fn probes(ctx: &mut Ctx, s: &Session, l1: &[Mv]) {
@@ -1515,14 +1651,22 @@ fn one_ply(ctx: &mut Ctx, st: &mut LoopState, ply: u32) -> Step<Flow> {
         }
 
         match ctx.mode {
-            Prop::C01 => mon_c01(ctx, &st.s, &l1, st.cfg.byz)?,
-            Prop::C02 => mon_c02(ctx, &st.s, &l1, st.cfg.byz)?,
+            Prop::C01 => {
+                mon_c01(ctx, &st.s, &l1, st.cfg.byz)?;
+                interleave_twin(ctx, &st.s, &l1)?;
+            }
+            Prop::C02 => {
+                mon_c02(ctx, &st.s, &l1, st.cfg.byz)?;
+                interleave_twin(ctx, &st.s, &l1)?;
+            }
             Prop::C03 => mon_c03_status(ctx, &st.s, &l1)?,
             Prop::C05 => mon_c05(ctx, &st.s)?,
             Prop::C07 => {
                 text_forms(ctx);
                 mon_c01(ctx, &st.s, &l1, 1)?;
                 mon_c03_status(ctx, &st.s, &l1)?;
+                interleave_twin(ctx, &st.s, &l1)?;
+                surface_walk(ctx, &st.s, &st.three_fold);
                 let _ = op(Op::Print, || format!("{:#?}", st.s.board));
                 let _ = op(Op::Hash, || {
                     use std::hash::{Hash, Hasher};
